@@ -175,6 +175,12 @@ func IteInt(c bool, a, b int) int {
 	}
 	return b
 }
+func IteF64(c bool, a, b float64) float64 {
+	if c {
+		return a
+	}
+	return b
+}
 func IteF32(c bool, a, b float32) float32 {
 	if c {
 		return a
